@@ -188,11 +188,14 @@ def generate_micro(rng, index, tier):
             ops.append(_op(rng, name, gap))
         if G.accepted(state, leader, direction):
             state = G.target(leader, direction)
-    return {
+    plan = {
         'seed': rng.getrandbits(32), 'shape': 'micro', 'exec': {'delay_ms': [0, 0]},
         'direction': direction, 'start': start, 'route': route, 'local': local, 'size': size, 'have': have,
         'tasks': tasks, 'respawn': rng.random() < (0.5 if shape == 'sequential' else 0.75), 'slow': slow, 'ops': ops,
     }
+    if rng.random() < 0.12:
+        plan['listener_raises'] = rng.randint(1, 3)      # the n-th notification of the operations makes the application's listener fail
+    return plan
 
 
 def _plan(direction, start, how, ops, **extra):
@@ -240,6 +243,16 @@ def corpus_micro(tier):
     out = []
     out.extend(_single_op_plans())
     out.extend(_pair_plans())
+    # an application listener that fails while it is told about a change, then more operations
+    for start, direction in (('DOWNLOADING', G.DOWNLOAD), ('UPLOADING', G.UPLOAD), ('QUEUED', G.DOWNLOAD), ('PAUSED', G.UPLOAD)):
+        for first in ('abort', 'pause', 'complete', 'fail', 'queue'):
+            for via in ('state', 'manager'):
+                if via == 'manager' and first not in ('abort', 'pause', 'queue'):
+                    continue
+                out.append(_plan(direction, start, 'route',
+                                 [{'op': first, 'via': via, 'gap': None, 'reason': 'Requested'},
+                                  {'op': 'fail', 'via': 'state', 'gap': None}, {'op': 'queue', 'via': 'state', 'gap': None},
+                                  {'op': 'pause', 'via': 'state', 'gap': None}], listener_raises=1))
     # the documented example: abort || pause from DOWNLOADING, follower offset swept, both ways to issue
     for k in range(0, 7):
         for via in ('state', 'manager'):
@@ -503,6 +516,8 @@ def _run_micro(world: World, plan):
         tr.local_path = file_path
 
     # ------------------------------------------------------------------ listener
+    raised_in = set()
+
     class Listener:
         async def on_transfer_state_changed(self, transfer, old, new):
             op = by_task.get(asyncio.current_task())
@@ -511,6 +526,13 @@ def _run_micro(world: World, plan):
             if op is not None:
                 op.notes.append((seq, old.name, new.name))
             world.trace('notify', op.idx if op else None, old.name, new.name)
+            n_ops = len([e for e in events if e[0] == 'notify' and e[1] is not None and e[1].phase == 'ops'])
+            if op is not None and op.phase == 'ops' and plan.get('listener_raises') == n_ops:
+                # an application listener that fails after it has been told (it runs after the manager's own): what was
+                # reported stays reported
+                world.disk.fired['state_listener_raised'] += 1
+                raised_in.add(op)
+                raise RuntimeError('application state listener failed')
 
     listener = Listener()
 
@@ -801,6 +823,11 @@ def _run_micro(world: World, plan):
         else:
             if op.via == 'manager' and isinstance(call.exception, InvalidStateTransition):
                 verdict = False
+            elif op in raised_in and isinstance(call.exception, RuntimeError):
+                # the failure of the application's listener reaches the caller; the change it was told about is judged
+                # by the edge / final-state clauses only
+                world.probe('listener_failure_reached_the_caller')
+                continue
             else:
                 world.violate('C03.result', what='exception', exc=type(call.exception).__name__, **facts)
                 continue
